@@ -238,6 +238,29 @@ def mon_c03(m, payload):
         if not mv.close(Cwell, exp_cwell, RT, 1e-12):
             fails.append(('sbt/wells/sum', f'wellfield cost {Cwell!r}, expected vertical sections x wells + laterals + junction legs = {exp_cwell!r}'))
     else:
+        if 'Number of Multilateral Sections' in inp and mv.has(wb, 'Configuration'):
+            # laterals on the standard economics: N sections of the given length each (none for the vertical geometry), per section either the
+            # user's per-metre figure or the published curve at the section length, half price when uncased - computed here from the inputs
+            config = getattr(wb.Configuration.value, 'name', str(wb.Configuration.value))
+            nsec = float(V(wb, 'numnonverticalsections'))
+            sec_m = float(wb.Nonvertical_length.quantity().to('m').magnitude)
+            casing = 1.0 if bool(V(wb, 'NonverticalsCased')) else 0.5
+            corr_l = int(_f(inp, 'Well Drilling Cost Correlation') or 10)
+            per_m_l = _f(inp, 'All-in Nonvertical Drilling Costs')
+            adj_l = _f(inp, 'Well Drilling and Completion Capital Cost Adjustment Factor')
+            adj_l = 1.0 if adj_l is None else adj_l
+            if config == 'VERTICAL':
+                e_lat = 0.0
+            elif config in ('ULOOP', 'COAXIAL', 'L'):
+                if per_m_l is not None:
+                    e_lat = casing * nsec * per_m_l * sec_m * 1e-6 * adj_l
+                else:
+                    e_lat = casing * nsec * R.well_cost_MUSD(corr_l, sec_m, float(V(ec, 'Nonvertical_drilling_cost_per_m')), 1.0) * adj_l
+            else:
+                e_lat = None
+            if e_lat is not None and not mv.close(lateral, e_lat, RT, 1e-12):
+                fails.append((f'wells/laterals/{config}', f'lateral sections cost {lateral!r}, expected {e_lat!r} = {nsec:g} sections x {sec_m:g} m ({config}, casing factor {casing}, '
+                              f'per-metre {per_m_l}, correlation {corr_l})'))
         ci = c_inj if ninj > 0 else 0.0
         exp_cwell = 1.05 * (c_prod * nprod + ci * ninj + lateral)
         if not mv.close(Cwell, exp_cwell, RT, 1e-12):
